@@ -52,7 +52,10 @@ def main():
                 dst_demo, democmd = "minicbor-io/tests/seed_demo.rs", "cargo test -p minicbor-io --test seed_demo --offline"
             elif "minicbor-serde/tests" in demo_txt:
                 dm = meta.get("demo", "")
-                feats = "" if ("without features" in dm or "no features" in dm or "no-alloc" in dm) and "--features std" not in dm else "--features std "
+                import re
+                m = re.search(r"-p minicbor-serde --features ([a-z,]+)", dm)
+                feats = (f"--features {m.group(1)} " if m else
+                         "" if ("without features" in dm or "no features" in dm or "no-alloc" in dm) and "--features std" not in dm else "--features std ")
                 dst_demo, democmd = "minicbor-serde/tests/seed_demo.rs", f"cargo test -p minicbor-serde {feats}--test seed_demo --offline"
             else:
                 dst_demo, democmd = "minicbor-tests/tests/seed_demo.rs", "cargo test -p minicbor-tests --features std,derive --test seed_demo --offline"
